@@ -312,7 +312,7 @@ def build_cases(rep, tier, rng):
             cases.append(dict(mode="scripted", prob=prob, kappa0=KAPPAS[2][(i + r) % 2],
                               lam0=[rng.choice([0.0, rng.uniform(0, 2)]) for _ in range(2)],
                               x0=[rng.uniform(-2, 2) for _ in range(N)], al=AL_VECTORS[(i + r) % 4], script=sc))
-    ngen = 45 if tier == "quick" else 1200
+    ngen = 45 if tier == "quick" else 400
     for i in range(ngen):
         m = [2, 4][i % 2]
         kind = ["active", "weak", "redundant", "nonlinear"][(i // 2) % 4]
@@ -325,7 +325,7 @@ def build_cases(rep, tier, rng):
             c["ref"] = None if ref is None else ref.tolist()
         cases.append(c)
     # warm re-solves with carried multipliers / penalties at several tolerances, and sub-solver tolerance != AL tolerance
-    for i in range(9 if tier == "quick" else 200):
+    for i in range(9 if tier == "quick" else 60):
         m = [2, 4][i % 2]
         kind = ["active", "nonlinear", "weak"][i % 3]
         prob = random_problem(rng, m, kind)
@@ -342,7 +342,7 @@ def build_cases(rep, tier, rng):
     # Newton-only mode can never return normally: it must raise
     cases.append(dict(mode="newton_only", prob=random_problem(rng, 2, "active"), kappa0=KAPPAS[2][0], lam0=[0.0, 0.0],
                       x0=[0.5, 0.5, 0.5], al=dict(use_newton_only=True, max_al_iters=4), script=None))
-    for i in range(10 if tier == "quick" else 150):
+    for i in range(10 if tier == "quick" else 40):
         n = 3
         Q, _ = onp.linalg.qr(onp.array([[rng.gauss(0, 1) for _ in range(n)] for _ in range(n)]))
         A = Q @ onp.diag([10 ** rng.uniform(0, 1) for _ in range(n)]) @ Q.T
